@@ -153,11 +153,12 @@ Definition fresh_page (m : mem) (base bs : N) : option (mem * N) :=
   end.
 
 (* the OS layer's contract for a new segment of `slices` slices at `base` (C11_os_alloc_aligned_spec):
-   aligned, not NULL, below 2^63, disjoint from every segment that exists *)
+   aligned, not NULL, below 2^63, different and disjoint from every segment that exists *)
 Definition base_ok (m : mem) (base slices : N) : bool :=
   (base mod MI_SEGMENT_SIZE =? 0) && (0 <? base) &&
   (base + MI_SEGMENT_SIZE <? 2^63) && (base + slices * MI_SEGMENT_SLICE_SIZE <? 2^63) &&
-  forallb (fun cs => (base + slices * MI_SEGMENT_SLICE_SIZE <=? cs_base cs) || (cs_base cs + seg_size cs <=? base)) m.
+  forallb (fun cs => negb (cs_base cs =? base) &&
+                     ((base + slices * MI_SEGMENT_SLICE_SIZE <=? cs_base cs) || (cs_base cs + seg_size cs <=? base))) m.
 
 (* mi_segment_alloc(required = 0): a fresh normal segment *)
 Definition fresh_seg (m : mem) (base : N) : option mem :=
@@ -171,7 +172,9 @@ Definition fresh_seg (m : mem) (base : N) : option mem :=
 (* mi_segment_huge_page_alloc(bs, page_alignment): a fresh huge segment with its single page;
    page->block_size = psize *)
 Definition huge_seg (m : mem) (base bs page_alignment : N) : option (mem * N) :=
-  if bs =? 0 then None else
+  let '(ss, info, _, _) := segment_request bs page_alignment in
+  (* slice_count is a uint32_t; there is one info slice *)
+  if (bs =? 0) || negb ((2 <=? ss) && (ss <? 4294967296) && (info =? 1)) then None else
   match segment_init bs page_alignment empty_queues with
   | None => None
   | Some st =>
